@@ -281,6 +281,20 @@ class Ctx:
                                      ('forbidden construct in development' if hits else '')})
         return all_ok, log
 
+    def coqchk(self, props_rel, timeout=1500):
+        """thorough tier: re-check the compiled property file and everything it
+        depends on with the independent checker; record its context summary"""
+        modname = 'FV.' + props_rel[:-2].replace('/', '.')
+        rc, out, err, dt = sh(['coqchk', '-silent', '-o', '-Q', str(COQ), 'FV', modname],
+                              timeout=timeout, cwd=COQ)
+        txt = out + err
+        summ = txt[txt.find('CONTEXT SUMMARY'):] if 'CONTEXT SUMMARY' in txt else txt[-800:]
+        ok = rc == 0 and 'type-in-type: <none>' in summ and 'unsafe (co)fixpoints: <none>' in summ \
+            and 'positivity is assumed: <none>' in summ
+        self.notes['coqchk'] = {'ok': ok, 'wall_s': round(dt, 1), 'summary': summ[:3000]}
+        self.log(f'coqchk {modname}: ok={ok} ({dt:.0f}s)')
+        return ok
+
     def coq_eval(self, name, text, timeout=600):
         """compile a scratch file, return (rc, stdout, stderr)"""
         f = self.scratch / f'{name}.v'
